@@ -4,6 +4,7 @@ import (
 	"go/constant"
 	"go/token"
 	"go/types"
+	"regexp"
 	"strings"
 
 	"golang.org/x/tools/go/ssa"
@@ -25,7 +26,18 @@ import (
 //     is checked establishes it at each of its successful returns, or it is established at the call site
 //     of the helper the sink lives in;
 //   - "for every justification" means a loop recognised as visiting every element once (range or index
-//     form) whose every iteration establishes the fact and which cannot be left early towards the sink.
+//     form, also with a compound condition `err == nil && i < len(x)`) in which no iteration goes on to the
+//     next element without establishing the fact and which cannot be left early towards the sink;
+//   - the path search is path-sensitive (h05_ext.go, h05walker): phis by the edge taken, locals kept in
+//     memory, what the branches taken imply — so an error accumulated in a variable and tested later
+//     (single-exit style) is the same as an early return; a variable assigned on some paths only is, at a
+//     point of use, the value of the paths that can reach it (TermAt);
+//   - a parameter object (`in := &inbound{c: c, pbMsg: pbMsg}` handed to helper methods) is looked through:
+//     a field read is the single value stored into the field before the read (objField);
+//   - the count limits and the signature comparison are stated on their primitives (comparisons of
+//     len(Justification)/len(Values) with a bound; IsEqual(k1util.Recover(hashProto(clone), msg.Signature),
+//     pubkeys[msg.PeerIdx])), not on the helpers that hold them today; private fields are identified by
+//     their type, renamed anchor functions by their signature.
 //
 // An unrecognised shape (a value the engine cannot trace, a loop it cannot classify) ends UNDECIDED; a
 // VIOLATION is only reported when a path or a precisely known different value is exhibited.
@@ -37,10 +49,26 @@ const (
 
 func c05(c *rt.Ctx) {
 	e := &c05env{c: c}
-	c.Rule("A1", 11, func() { c05A1(e) })
-	c.Rule("A2", 13, func() { c05A2(e) })
-	c.Rule("A3", 10, func() { c05A3(e) })
-	c.Rule("A4", 9, func() { c05A4(e) })
+	c05ResolveAnchors(c)
+	// a rule whose anchor function is found neither by name nor by signature is undecided as a whole: the
+	// absence of calls to a function that does not exist is no evidence
+	need := func(roles ...string) {
+		for _, r := range roles {
+			if c.FnOpt(c05N(r)) == nil {
+				c.Bail("anchor function %s.%s not found (renamed or removed, and not identifiable by its signature)", c05Q, r)
+			}
+		}
+	}
+	c.Rule("A1", 11, func() {
+		need("Consensus.handle", "verifyMsg", "valuesByHash", "newMsg", "Consensus.getRecvBuffer")
+		c05A1(e)
+	})
+	c.Rule("A2", 13, func() { need("verifyMsgSig", "signMsg", "hashProto"); c05A2(e) })
+	c.Rule("A3", 10, func() {
+		need("Consensus.handle", "verifyMsg", "valuesByHash", "newMsg", "hashProto", "toHash32")
+		c05A3(e)
+	})
+	c.Rule("A4", 9, func() { need("verifyMsg", "hashProto"); c05A4(e) })
 	c.Rule("A5", 4, func() { c05A5(e) })
 	c.Rule("A6", 4, func() { c05A6(e) })
 }
@@ -51,22 +79,227 @@ func c05(c *rt.Ctx) {
 type c05env struct {
 	c  *rt.Ctx
 	en *an.H05
+	// helpers found to build the Msg returned by newMsg (their field provenance is checked with it)
+	builders []c05builder
 }
 
-// names of the functions the rules make statements about (never looked through when building terms)
-var c05Anchors = []string{
-	c05Q + ".verifyMsg", c05Q + ".verifyMsgLimits", c05Q + ".valuesByHash", c05Q + ".newMsg", c05Q + ".hashProto",
-	c05Q + ".verifyMsgSig", c05Q + ".signMsg", c05Q + ".toHash32", c05Q + ".Consensus.getRecvBuffer", c05Q + ".Consensus.handle",
+// c05builder is a call of a helper that builds a Msg from a wire message: callee and argument terms.
+type c05builder struct {
+	name string
+	args []*an.H05Term
+}
+
+// c05anyQ holds if one of its alternatives does.
+type c05anyQ struct{ qs []an.H05Query }
+
+func (q *c05anyQ) ID() string {
+	s := "c05any"
+	for _, x := range q.qs {
+		s += "[" + x.ID() + "]"
+	}
+	return s
+}
+
+func (q *c05anyQ) Direct(en *an.H05, site ssa.Instruction, f *an.H05Frame, acc an.H05Accept) an.H05Verdict {
+	var best an.H05Verdict
+	for i, x := range q.qs {
+		v := x.Direct(en, site, f, acc)
+		if v.Yes {
+			return v
+		}
+		if i == 0 {
+			best = v
+		} else {
+			best = c05Better(best, v)
+		}
+	}
+	return best
+}
+
+// c05Subst replaces every occurrence of from in t by to.
+func c05Subst(t, from, to *an.H05Term) *an.H05Term {
+	if t == nil {
+		return nil
+	}
+	if an.H05Same(t, from) {
+		return to
+	}
+	if len(t.Args) == 0 {
+		return t
+	}
+	args := make([]*an.H05Term, len(t.Args))
+	for i, a := range t.Args {
+		args[i] = c05Subst(a, from, to)
+	}
+	n := an.H05T(t.Op, t.Name, args...)
+	n.Val, n.Frame = t.Val, t.Frame
+	return n
+}
+
+// The functions the rules make statements about (never looked through when building terms). They are found
+// under their conventional names; a renamed one is identified by its signature if that is unique in the
+// package (the handler: by being the one registered with p2p.RegisterHandler).
+var c05AnchorRoles = []string{"verifyMsg", "verifyMsgLimits", "valuesByHash", "newMsg", "hashProto", "verifyMsgSig", "signMsg", "toHash32",
+	"Consensus.getRecvBuffer", "Consensus.handle"}
+
+// c05Sigs: parameter types -> result types of the anchors (package paths shortened to their last element).
+var c05Sigs = map[string]string{
+	"verifyMsg":               "*v1.QBFTMsg,map[int64]*v4.PublicKey->error",
+	"valuesByHash":            "[]*anypb.Any->map[[32]byte]*anypb.Any,error",
+	"newMsg":                  "*v1.QBFTMsg,[]*v1.QBFTMsg,map[[32]byte]*anypb.Any->qbft.Msg,error",
+	"hashProto":               "proto.Message->[32]byte,error",
+	"verifyMsgSig":            "*v1.QBFTMsg,*v4.PublicKey->bool,error",
+	"signMsg":                 "*v1.QBFTMsg,*v4.PrivateKey->*v1.QBFTMsg,error",
+	"toHash32":                "[]byte->[32]byte,bool",
+	"Consensus.getRecvBuffer": "*qbft.Consensus,core.Duty->chan qbft.Msg",
+}
+
+var c05Names = map[string]string{}
+
+// c05N is the full name of the function playing the given role.
+func c05N(role string) string {
+	if n, ok := c05Names[role]; ok {
+		return n
+	}
+	return c05Q + "." + role
+}
+
+var c05PathRe = regexp.MustCompile(`[A-Za-z0-9_.\-]+/`)
+
+func c05SigKey(fn *ssa.Function) string {
+	short := func(t types.Type) string { return c05PathRe.ReplaceAllString(types.TypeString(t, nil), "") }
+	var ps, rs []string
+	for _, p := range fn.Params {
+		ps = append(ps, short(p.Type()))
+	}
+	res := fn.Signature.Results()
+	for i := 0; i < res.Len(); i++ {
+		rs = append(rs, short(res.At(i).Type()))
+	}
+	return strings.Join(ps, ",") + "->" + strings.Join(rs, ",")
+}
+
+// c05ResolveAnchors fills c05Names for anchors that are not found under their conventional names.
+func c05ResolveAnchors(c *rt.Ctx) {
+	c05Names = map[string]string{}
+	var funcs []*ssa.Function
+	for _, role := range c05AnchorRoles {
+		if c.FnOpt(c05Q+"."+role) != nil {
+			continue
+		}
+		if funcs == nil {
+			for _, fn := range an.PkgFuncs(c.SSAPkg(c05Q)) {
+				if fn.Parent() == nil {
+					funcs = append(funcs, fn)
+				}
+			}
+		}
+		var hits []*ssa.Function
+		if role == "Consensus.handle" {
+			// the function value registered as the stream handler
+			if reg := c.FnOpt("p2p.RegisterHandler"); reg != nil {
+				for _, fn := range funcs {
+					for _, call := range c05CallsTo(fn, reg) {
+						if len(call.Call.Args) >= 5 {
+							for _, h := range an.FuncValues(call.Call.Args[4]) {
+								hits = append(hits, an.Orig(h))
+							}
+						}
+					}
+				}
+			}
+		} else if want, ok := c05Sigs[role]; ok {
+			for _, fn := range funcs {
+				if c05SigKey(fn) == want {
+					hits = append(hits, fn)
+				}
+			}
+		}
+		if len(hits) == 1 {
+			c05Names[role] = an.FuncName(hits[0])
+		}
+	}
 }
 
 func (e *c05env) engine() *an.H05 {
 	if e.en == nil {
 		e.en = an.NewH05(e.c.SSAPkg(c05Q), e.c.SSAPkg(c05PB))
-		for _, a := range c05Anchors {
-			e.en.Anchors[a] = true
+		for _, role := range c05AnchorRoles {
+			e.en.Anchors[c05N(role)] = true
 		}
 	}
 	return e.en
+}
+
+// c05FieldByType names the field of struct `typ` of the qbft package whose type satisfies match (private
+// fields are identified by what they hold, not by what they are called); the conventional name is used when
+// the type does not single one out.
+func c05FieldByType(c *rt.Ctx, typ, conventional string, match func(t string) bool) string {
+	obj := c.Pkg(c05Q).Types.Scope().Lookup(typ)
+	if obj == nil {
+		c.Bail("type %s.%s not found", c05Q, typ)
+	}
+	st, ok := obj.Type().Underlying().(*types.Struct)
+	if !ok {
+		c.Bail("%s.%s is not a struct", c05Q, typ)
+	}
+	var hits []string
+	have := false
+	for i := 0; i < st.NumFields(); i++ {
+		f := st.Field(i)
+		if f.Name() == conventional {
+			have = true
+		}
+		if match(types.TypeString(f.Type(), nil)) {
+			hits = append(hits, f.Name())
+		}
+	}
+	if len(hits) == 1 {
+		return hits[0]
+	}
+	if !have {
+		c.Bail("%s.%s: the field holding the %s cannot be identified", c05Q, typ, conventional)
+	}
+	return conventional
+}
+
+func c05ConsFields(c *rt.Ctx) (pubkeys, peers, gater, deadliner string) {
+	pubkeys = c05FieldByType(c, "Consensus", "pubkeys", func(t string) bool {
+		return strings.HasPrefix(t, "map[int64]*") && strings.HasSuffix(t, ".PublicKey")
+	})
+	peers = c05FieldByType(c, "Consensus", "peers", func(t string) bool { return strings.HasPrefix(t, "[]") && strings.HasSuffix(t, "/p2p.Peer") })
+	gater = c05FieldByType(c, "Consensus", "gaterFunc", func(t string) bool { return strings.HasSuffix(t, "/core.DutyGaterFunc") })
+	deadliner = c05FieldByType(c, "Consensus", "deadliner", func(t string) bool { return strings.HasSuffix(t, "/core.Deadliner") })
+	return
+}
+
+// c05MsgFieldRole maps the fields of qbft.Msg to their roles (msg, values, justificationProtos, justification,
+// valueHash, preparedValueHash) by type and — for the two hashes — by the accessor that returns them.
+func c05MsgFieldRole(e *c05env) map[string]string {
+	c := e.c
+	role := map[string]string{}
+	role[c05FieldByType(c, "Msg", "msg", func(t string) bool { return strings.HasPrefix(t, "*") && strings.HasSuffix(t, "/"+c05PB+".QBFTMsg") })] = "msg"
+	role[c05FieldByType(c, "Msg", "values", func(t string) bool { return strings.HasPrefix(t, "map[[32]byte]*") })] = "values"
+	role[c05FieldByType(c, "Msg", "justificationProtos", func(t string) bool {
+		return strings.HasPrefix(t, "[]*") && strings.HasSuffix(t, "/"+c05PB+".QBFTMsg")
+	})] = "justificationProtos"
+	role[c05FieldByType(c, "Msg", "justification", func(t string) bool { return strings.HasPrefix(t, "[]") && strings.Contains(t, "/core/qbft.Msg[") })] = "justification"
+	// the hashes: what Value() / PreparedValue() return
+	en := e.engine()
+	for acc, r := range map[string]string{"Value": "valueHash", "PreparedValue": "preparedValueHash"} {
+		fn := c.Fn(c05Q + ".Msg." + acc)
+		root := en.Root(fn)
+		for _, ret := range an.Returns(fn) {
+			if len(ret.Results) != 1 {
+				continue
+			}
+			t := en.Term(ret.Results[0], root)
+			if t.Is("field") && strings.HasPrefix(t.Name, c05Q+".Msg.") {
+				role[strings.TrimPrefix(t.Name, c05Q+".Msg.")] = r
+			}
+		}
+	}
+	return role
 }
 
 // c05CallsTo returns the plain calls (not go/defer) in fn whose static callee is target.
@@ -186,7 +419,7 @@ func (q *c05callQ) Direct(en *an.H05, site ssa.Instruction, f *an.H05Frame, acc 
 				if w == nil {
 					continue
 				}
-				t := en.Term(args[i], f)
+				t := en.TermAt(args[i], f, g, f)
 				if t.Key() != w.Key() {
 					match = false
 					untraced = untraced || t.Untraced()
@@ -254,7 +487,7 @@ type c05Handle struct {
 	root  *an.H05Frame
 	sinks []c05sink
 	// terms
-	recv, pb, msg, just, values, duty, pubkeys, peers *an.H05Term
+	recv, pb, msg, just, values, duty, pubkeys, peers, gater, deadliner *an.H05Term
 	// a dynamic call other than the gater / deadliner receives (part of) the request: it may hold checks
 	untraced string
 }
@@ -280,7 +513,7 @@ func c05SendsIn(fn *ssa.Function) bool {
 func c05ResolveHandle(e *c05env) *c05Handle {
 	c := e.c
 	en := e.engine()
-	h := &c05Handle{fn: c.Fn(c05Q + ".Consensus.handle")}
+	h := &c05Handle{fn: c.Fn(c05N("Consensus.handle"))}
 	h.root = en.Root(h.fn)
 	if len(h.fn.Params) < 2 {
 		c.Bail("handle: unexpected signature")
@@ -317,12 +550,27 @@ func c05ResolveHandle(e *c05env) *c05Handle {
 	h.just = fld(c05PB+".QBFTConsensusMsg", "Justification", h.pb)
 	h.values = fld(c05PB+".QBFTConsensusMsg", "Values", h.pb)
 	h.duty = an.H05CallT("core.DutyFromProto", fld(c05PB+".QBFTMsg", "Duty", h.msg))
-	h.pubkeys = fld(c05Q+".Consensus", "pubkeys", h.recv)
-	h.peers = fld(c05Q+".Consensus", "peers", h.recv)
-	gater := fld(c05Q+".Consensus", "gaterFunc", h.recv)
-	deadliner := fld(c05Q+".Consensus", "deadliner", h.recv)
+	fPubkeys, fPeers, fGater, fDeadliner := c05ConsFields(c)
+	h.pubkeys = fld(c05Q+".Consensus", fPubkeys, h.recv)
+	h.peers = fld(c05Q+".Consensus", fPeers, h.recv)
+	gater := fld(c05Q+".Consensus", fGater, h.recv)
+	deadliner := fld(c05Q+".Consensus", fDeadliner, h.recv)
+	h.gater, h.deadliner = gater, deadliner
 
+	// inside the anchor functions (verifyMsg, newMsg, …) nothing is looked for: their bodies are the
+	// subject of their own rules
+	inAnchor := func(f *an.H05Frame) bool {
+		for g := f; g != nil && g.Parent != nil; g = g.Parent {
+			if en.Anchors[an.FuncName(g.Fn)] {
+				return true
+			}
+		}
+		return false
+	}
 	en.Walk(h.root, func(in ssa.Instruction, f *an.H05Frame) {
+		if inAnchor(f) {
+			return
+		}
 		switch x := in.(type) {
 		case *ssa.Send:
 			if c05MsgChan(x.Chan.Type()) {
@@ -436,25 +684,38 @@ func c05A1(e *c05env) {
 	expired := constOf(c, "core", "DeadlineExpired")
 	const cons = c05Q + ".Consensus"
 	lenOf := func(t *an.H05Term) *an.H05Term { return an.H05T("builtin", "len", t) }
-	vals0 := an.H05ExtractT(0, an.H05CallT(c05Q+".valuesByHash", h.values))
-	built := an.H05ExtractT(0, an.H05CallT(c05Q+".newMsg", h.msg, h.just, vals0))
+	vals0 := an.H05ExtractT(0, an.H05CallT(c05N("valuesByHash"), h.values))
+	built := an.H05ExtractT(0, an.H05CallT(c05N("newMsg"), h.msg, h.just, vals0))
 
-	qMain := c05CallQ(c05Q+".verifyMsg", an.H05ErrNil, "no verifyMsg(pbMsg.GetMsg(), c.pubkeys) call in handle", h.msg, h.pubkeys)
+	qMain := c05CallQ(c05N("verifyMsg"), an.H05ErrNil, "no verifyMsg(pbMsg.GetMsg(), c.pubkeys) call in handle", h.msg, h.pubkeys)
 	qGater := &c05callQ{name: "c.gaterFunc", spec: an.H05Spec{BoolIdx: 0, BoolWant: true}, args: []*an.H05Term{h.duty},
 		missing: "no c.gaterFunc(duty) call on the message's duty in handle",
 		callee: func(en *an.H05, g *ssa.Call, f *an.H05Frame) bool {
 			if g.Call.IsInvoke() || g.Call.StaticCallee() != nil {
 				return false
 			}
-			return an.H05Same(en.Term(g.Call.Value, f), an.H05Field(cons+".gaterFunc", h.recv))
+			return an.H05Same(en.Term(g.Call.Value, f), h.gater)
 		}}
-	limitsQ := func(n *an.H05Term) an.H05Query {
-		return c05CallQ(c05Q+".verifyMsgLimits", an.H05ErrNil, "no verifyMsgLimits(pbMsg, len(c.pubkeys)) call in handle", h.pb, lenOf(n))
+	// the amplification limits, as a mechanism: the number of justifications is bounded by the cluster size
+	// and the number of values by the number of justifications — wherever the comparisons live
+	// (verifyMsgLimits, a differently named helper, inline)
+	qLimJust := &c05boundQ{coll: h.just, what: "justification", by: []*an.H05Term{lenOf(h.pubkeys), lenOf(h.peers)}, req: h.pb}
+	qLimVals := &c05boundQ{coll: h.values, what: "value", by: []*an.H05Term{lenOf(h.just)}, req: h.pb}
+	limitsAt := func(in ssa.Instruction, f *an.H05Frame) an.H05Verdict {
+		lj := h.est(en, qLimJust, in, f)
+		lv := h.est(en, qLimVals, in, f)
+		if c05Rank(lv) < c05Rank(lj) {
+			lj, lv = lv, lj
+		}
+		if lj.Yes && lv.Yes && lj.Wit == nil {
+			lj.Wit, lj.WitFrame = lv.Wit, lv.WitFrame
+		}
+		return lj // the worse of the two
 	}
 	qJust := &an.H05ForallQ{Name: "verifyMsg", Coll: h.just,
 		Missing: "no verifyMsg call on the elements of a loop over pbMsg.GetJustification()",
 		Inner: func(elem *an.H05Term) an.H05Query {
-			return c05CallQ(c05Q+".verifyMsg", an.H05ErrNil, "no verifyMsg(justification, c.pubkeys) call in the loop", elem, h.pubkeys)
+			return c05CallQ(c05N("verifyMsg"), an.H05ErrNil, "no verifyMsg(justification, c.pubkeys) call in the loop", elem, h.pubkeys)
 		}}
 	qDuty := &an.H05ForallQ{Name: "dutyeq", Coll: h.just,
 		Missing: "no comparison of DutyFromProto(justification.GetDuty()) with the message duty in a loop over pbMsg.GetJustification()",
@@ -462,12 +723,12 @@ func c05A1(e *c05env) {
 			return &an.H05EqQ{A: an.H05CallT("core.DutyFromProto", an.H05Field(c05PB+".QBFTMsg.Duty", elem)), B: h.duty,
 				Missing: "no comparison of the justification's duty with the message duty in the loop"}
 		}}
-	qValues := c05CallQ(c05Q+".valuesByHash", an.H05ErrNil, "no valuesByHash(pbMsg.GetValues()) call in handle", h.values)
-	qBuilt := c05CallQ(c05Q+".newMsg", an.H05ErrNil, "no newMsg(pbMsg.GetMsg(), pbMsg.GetJustification(), values) call over the verified parts in handle", h.msg, h.just, vals0)
+	qValues := c05CallQ(c05N("valuesByHash"), an.H05ErrNil, "no valuesByHash(pbMsg.GetValues()) call in handle", h.values)
+	qBuilt := c05CallQ(c05N("newMsg"), an.H05ErrNil, "no newMsg(pbMsg.GetMsg(), pbMsg.GetJustification(), values) call over the verified parts in handle", h.msg, h.just, vals0)
 	qDeadline := &c05callQ{name: "c.deadliner.Add", spec: an.H05Spec{BoolIdx: -1, NotConst: constant.MakeInt64(expired)}, args: []*an.H05Term{h.duty},
 		missing: "no c.deadliner.Add(duty) on the message's duty before the send",
 		callee: func(en *an.H05, g *ssa.Call, f *an.H05Frame) bool {
-			return an.Invoke("core.Deadliner.Add")(&g.Call) && an.H05Same(en.Term(g.Call.Value, f), an.H05Field(cons+".deadliner", h.recv))
+			return an.Invoke("core.Deadliner.Add")(&g.Call) && an.H05Same(en.Term(g.Call.Value, f), h.deadliner)
 		}}
 
 	for _, sk := range h.sinks {
@@ -475,22 +736,16 @@ func c05A1(e *c05env) {
 		pos := posOf(sink)
 		c05Report(c, "handle verifyMsg(msg)→recvBuffer", pos, h.est(en, qMain, sink, f), "checked guard dominates the send")
 		c05Report(c, "handle gaterFunc(duty)→recvBuffer", pos, h.est(en, qGater, sink, f), "checked guard dominates the send")
-		limits := h.est(en, limitsQ(h.pubkeys), sink, f)
-		if !limits.Yes {
-			limits = c05Better(limits, h.est(en, limitsQ(h.peers), sink, f))
-		}
+		limits := limitsAt(sink, f)
 		c05Report(c, "handle verifyMsgLimits(pbMsg)→recvBuffer", pos, limits, "checked guard dominates the send")
 
 		jv := h.est(en, qJust, sink, f)
 		c05Report(c, "handle forall justification verifyMsg→recvBuffer", pos, jv, "every justification passes verifyMsg before the send")
 		if limits.Yes && jv.Yes && jv.Wit != nil {
 			// the limits are checked before the per-justification signature work
-			lv := h.est(en, limitsQ(h.pubkeys), jv.Wit, jv.WitFrame)
-			if !lv.Yes {
-				lv = c05Better(lv, h.est(en, limitsQ(h.peers), jv.Wit, jv.WitFrame))
-			}
+			lv := limitsAt(jv.Wit, jv.WitFrame)
 			if !lv.Yes && !lv.Unsure {
-				lv.Why = "verifyMsgLimits does not guard the per-justification verification: " + lv.Why
+				lv.Why = "the count limits do not guard the per-justification verification: " + lv.Why
 			}
 			c05Report(c, "handle verifyMsgLimits before justification loop", pos, lv, "")
 		}
@@ -504,7 +759,7 @@ func c05A1(e *c05env) {
 		c05Report(c, "handle deadliner.Add(duty) expired→no send", pos, dv, "")
 
 		// the value sent and the buffer it is sent to
-		sent := en.Term(sk.val, f)
+		sent := en.TermAt(sk.val, f, sink, f)
 		switch {
 		case an.H05Same(sent, built):
 			c.Good("handle sent value is newMsg result", pos, "")
@@ -513,9 +768,9 @@ func c05A1(e *c05env) {
 		default:
 			c.Bad("handle sent value is newMsg result", pos, "the Msg sent to the receive buffer is not the result of the checked newMsg call")
 		}
-		ch := en.Term(sk.ch, f)
+		ch := en.TermAt(sk.ch, f, sink, f)
 		switch {
-		case an.H05Same(ch, an.H05CallT(cons+".getRecvBuffer", h.recv, h.duty)):
+		case an.H05Same(ch, an.H05CallT(c05N("Consensus.getRecvBuffer"), h.recv, h.duty)):
 			c.Good("handle buffer is getRecvBuffer(msg duty)", pos, "")
 		case ch.Untraced():
 			c.Unsure("handle buffer is getRecvBuffer(msg duty)", pos, "the channel cannot be traced to its origin")
@@ -523,6 +778,111 @@ func c05A1(e *c05env) {
 			c.Bad("handle buffer is getRecvBuffer(msg duty)", pos, "the channel is not c.getRecvBuffer(duty) for the duty of the verified message")
 		}
 	}
+}
+
+// c05boundQ: an upper bound on len(coll) is enforced — a relational comparison of len(coll) with a bound
+// dominates the site and with the length on the "too many" side of it the site is unreachable. The bound
+// is expected to be computed from one of the `by` terms (the cluster size, the number of justifications).
+type c05boundQ struct {
+	coll *an.H05Term
+	what string
+	by   []*an.H05Term
+	req  *an.H05Term // the request the collection is part of
+}
+
+func (q *c05boundQ) ID() string { return "c05bound:" + q.coll.Key() }
+
+func c05Ungrounded(t *an.H05Term) bool {
+	if t == nil || t.Op == "opaque" || t.Op == "fresh" {
+		return true
+	}
+	for _, a := range t.Args {
+		if c05Ungrounded(a) {
+			return true
+		}
+	}
+	return false
+}
+
+func (q *c05boundQ) Direct(en *an.H05, site ssa.Instruction, f *an.H05Frame, acc an.H05Accept) an.H05Verdict {
+	best := an.H05Verdict{Why: "the number of " + q.what + "s is not bounded before the per-element work: no comparison of len(" + q.what + "s) with a limit rejects the message"}
+	lenT := an.H05T("builtin", "len", q.coll)
+	sees := false // the function works on the request
+	for _, p := range f.Fn.Params {
+		if t := en.Term(p, f); t.Contains(q.req) || t.Contains(q.coll) {
+			sees = true
+		}
+	}
+	for _, b := range f.Fn.Blocks {
+		for _, in := range b.Instrs {
+			if v, ok := in.(ssa.Value); ok && !sees {
+				if _, isTA := in.(*ssa.TypeAssert); isTA && en.Term(v, f).Contains(q.req) {
+					sees = true
+				}
+			}
+		}
+	}
+	// the bound test of a loop over the collection itself (`i < len(coll)`) limits nothing
+	loopTest := map[ssa.Value]bool{}
+	for _, l := range an.Loops(f.Fn) {
+		if r := en.RangeOf(l); r != nil && r.Test != nil {
+			if iff, ok := r.Test.Instrs[len(r.Test.Instrs)-1].(*ssa.If); ok {
+				loopTest[iff.Cond] = true
+			}
+		}
+	}
+	for _, b := range f.Fn.Blocks {
+		for _, in := range b.Instrs {
+			bin, ok := in.(*ssa.BinOp)
+			if !ok || loopTest[bin] {
+				continue
+			}
+			var tooManyIfTrue bool
+			switch bin.Op {
+			case token.GTR, token.GEQ:
+				tooManyIfTrue = true
+			case token.LSS, token.LEQ:
+			default:
+				continue
+			}
+			x, y := en.Term(bin.X, f), en.Term(bin.Y, f)
+			var bound *an.H05Term
+			switch {
+			case an.H05Same(x, lenT):
+				bound = y
+			case an.H05Same(y, lenT):
+				bound, tooManyIfTrue = x, !tooManyIfTrue
+			default:
+				if sees && (c05Ungrounded(x) || c05Ungrounded(y)) {
+					best = c05Better(best, an.H05Verdict{Unsure: true, Why: "a count is compared with a limit through values the checker cannot trace (a table of limits, a merged variable); whether it bounds the number of " + q.what + "s is not decided"})
+				}
+				continue
+			}
+			if !en.Dom(bin, site, acc) {
+				best = c05Better(best, an.H05Verdict{Cand: true, Why: "the limit on the number of " + q.what + "s does not dominate the site"})
+				continue
+			}
+			reach, imp := en.ReachUnder(bin, site, an.H05Env{bin: an.H05ConstAbs(constant.MakeBool(tooManyIfTrue))}, acc)
+			switch {
+			case reach && imp:
+				best = c05Better(best, an.H05Verdict{Unsure: true, Cand: true, Why: "the limit test on the number of " + q.what + "s is evaluated in a way the checker cannot follow"})
+				continue
+			case reach:
+				best = c05Better(best, an.H05Verdict{Cand: true, Why: "the site is reachable although the number of " + q.what + "s exceeds the limit"})
+				continue
+			}
+			derived := false
+			for _, by := range q.by {
+				derived = derived || bound.Contains(by)
+			}
+			if !derived {
+				best = c05Better(best, an.H05Verdict{Unsure: true, Cand: true, Why: "the limit on the number of " + q.what + "s is not visibly derived from the cluster size / the justification count"})
+				continue
+			}
+			return an.H05Verdict{Yes: true, Cand: true, Wit: bin, WitFrame: f}
+		}
+	}
+	return best
 }
 
 // ---------------------------------------------------------------------------------------------
@@ -540,7 +900,7 @@ const (
 func c05SignedClone(e *c05env, root *an.H05Frame, short string) (hp *ssa.Call, hf *an.H05Frame, clone *an.H05Term) {
 	c := e.c
 	en := e.engine()
-	hp, hf = c05One(c, en, root, c05Q+".hashProto", short)
+	hp, hf = c05One(c, en, root, c05N("hashProto"), short)
 	msgT := en.Term(root.Fn.Params[0], root)
 	// proto.Clone(msg).(*QBFTMsg) or the generic proto.CloneOf(msg)
 	want := an.H05T("assert", "*"+c05PB+".QBFTMsg", an.H05CallT(c05Clone, msgT))
@@ -681,7 +1041,7 @@ func c05DigestOf(t, clone *an.H05Term) bool {
 	if clone == nil {
 		return false
 	}
-	h := an.H05ExtractT(0, an.H05CallT(c05Q+".hashProto", clone))
+	h := an.H05ExtractT(0, an.H05CallT(c05N("hashProto"), clone))
 	return an.H05Same(t, h) || an.H05Same(t, an.H05T("slice", "", h))
 }
 
@@ -690,12 +1050,12 @@ func c05A2(e *c05env) {
 	en := e.engine()
 	// --- verifyMsgSig
 	{
-		fn := c.Fn(c05Q + ".verifyMsgSig")
+		fn := c.Fn(c05N("verifyMsgSig"))
 		root := en.Root(fn)
 		msgT, pkT := en.Term(fn.Params[0], root), en.Term(fn.Params[1], root)
 		_, _, clone := c05SignedClone(e, root, "verifyMsgSig")
 		rec, rf := c05One(c, en, root, "app/k1util.Recover", "verifyMsgSig")
-		qHash := c05CallQ(c05Q+".hashProto", an.H05ErrNil, "hashProto(clone) does not precede k1util.Recover", clone)
+		qHash := c05CallQ(c05N("hashProto"), an.H05ErrNil, "hashProto(clone) does not precede k1util.Recover", clone)
 		if clone == nil {
 			c.Bad("verifyMsgSig Recover(hash)", rec.Pos(), "the digest given to k1util.Recover is not the hash of the clone of the message")
 		} else {
@@ -782,14 +1142,14 @@ func c05A2(e *c05env) {
 	}
 	// --- signMsg
 	{
-		fn := c.Fn(c05Q + ".signMsg")
+		fn := c.Fn(c05N("signMsg"))
 		root := en.Root(fn)
 		hp, hpf, clone := c05SignedClone(e, root, "signMsg")
 		sg, sf := c05One(c, en, root, "app/k1util.Sign", "signMsg")
 		if clone == nil {
 			c.Bad("signMsg Sign(hash)", sg.Pos(), "the digest given to k1util.Sign is not the hash of the clone of the message")
 		} else {
-			qHash := c05CallQ(c05Q+".hashProto", an.H05ErrNil, "hashProto(clone) does not precede k1util.Sign", clone)
+			qHash := c05CallQ(c05N("hashProto"), an.H05ErrNil, "hashProto(clone) does not precede k1util.Sign", clone)
 			v := en.Established(qHash, sg, sf, nil, true)
 			if v.Yes && !c05DigestOf(en.Term(sg.Call.Args[1], sf), clone) {
 				v = an.H05Verdict{Why: "the digest given to k1util.Sign is not the hashProto result", Unsure: en.Term(sg.Call.Args[1], sf).Untraced()}
@@ -859,7 +1219,7 @@ func c05A2(e *c05env) {
 				continue
 			}
 			v := an.H05Verdict{Why: "signMsg does not return the clone it hashed"}
-			t := en.Term(r.Results[0], root)
+			t := en.TermAtAcc(r.Results[0], root, r, root, en.AcceptReturn(r, an.H05ErrNil))
 			switch {
 			case clone != nil && an.H05Same(t, clone) && tampered != "":
 				v.Why = tampered
@@ -870,7 +1230,7 @@ func c05A2(e *c05env) {
 						v = an.H05Verdict{Unsure: true, Why: "the signature is stored into the clone by a helper"}
 						continue
 					}
-					if an.Dominates(s.in, r) {
+					if en.Dom(s.in, r, en.AcceptReturn(r, an.H05ErrNil)) {
 						v = en.Established(qSign, r, root, en.AcceptReturn(r, an.H05ErrNil), false)
 						break
 					}
@@ -883,7 +1243,7 @@ func c05A2(e *c05env) {
 	}
 	// --- hashProto
 	{
-		fn := c.Fn(c05Q + ".hashProto")
+		fn := c.Fn(c05N("hashProto"))
 		root := en.Root(fn)
 		argT := en.Term(fn.Params[0], root)
 		ms, mf := c05One(c, en, root, c05Marshal, "hashProto")
@@ -931,7 +1291,7 @@ func c05A2(e *c05env) {
 			}
 			n++
 			v := an.H05Verdict{Why: "the hash returned on success is not the HashRoot of the hasher fed with the marshalled bytes"}
-			t := en.Term(r.Results[0], root)
+			t := en.TermAtAcc(r.Results[0], root, r, root, en.AcceptReturn(r, an.H05ErrNil))
 			// the very same hasher object (not merely an equal expression: the pool hands out distinct objects)
 			sameHasher := pf == rtf && en.Resolve(rootCall.Call.Args[0]) == en.Resolve(put.Call.Args[0])
 			switch {
@@ -1000,7 +1360,7 @@ func (q *c05anyCallQ) Direct(en *an.H05, site ssa.Instruction, f *an.H05Frame, a
 			}
 			takes := false
 			for _, a := range g.Call.Args {
-				if an.H05Same(en.Term(a, f), q.arg) {
+				if an.H05Same(en.TermAt(a, f, g, f), q.arg) {
 					takes = true
 				}
 			}
@@ -1048,12 +1408,14 @@ func c05A3(e *c05env) {
 type c05fieldStore struct {
 	val ssa.Value
 	st  *ssa.Store
+	f   *an.H05Frame // activation the store belongs to
+	ret *ssa.Return  // the successful return of f.Fn through which the struct leaves that activation
 }
 
 // c05StructFields resolves the values stored into the fields of a local struct (a composite literal,
 // possibly copied into a named local and amended field by field). Keys are field names. A non-empty
 // problem means the shape is not understood (the caller must not decide).
-func c05StructFields(a *ssa.Alloc, depth int) (map[string][]c05fieldStore, string) {
+func c05StructFields(en *an.H05, a *ssa.Alloc, f *an.H05Frame, ret *ssa.Return, depth int, rec *[]c05builder) (map[string][]c05fieldStore, string) {
 	if depth > 3 {
 		return nil, "copy chain too deep"
 	}
@@ -1073,7 +1435,7 @@ func c05StructFields(a *ssa.Alloc, depth int) (map[string][]c05fieldStore, strin
 					if x.Addr != ssa.Value(r) {
 						return nil, "address of field " + name + " is stored"
 					}
-					out[name] = append(out[name], c05fieldStore{x.Val, x})
+					out[name] = append(out[name], c05fieldStore{x.Val, x, f, ret})
 				case *ssa.UnOp, *ssa.DebugRef:
 				default:
 					return nil, "address of field " + name + " escapes"
@@ -1091,14 +1453,6 @@ func c05StructFields(a *ssa.Alloc, depth int) (map[string][]c05fieldStore, strin
 		}
 	}
 	if whole != nil {
-		ld, ok := whole.Val.(*ssa.UnOp)
-		if !ok || ld.Op != token.MUL {
-			return nil, "struct is assigned from something other than a local literal"
-		}
-		src, ok := ld.X.(*ssa.Alloc)
-		if !ok {
-			return nil, "struct is assigned from something other than a local literal"
-		}
 		for _, fs := range out {
 			for _, s := range fs {
 				if !an.Dominates(whole, s.st) {
@@ -1106,7 +1460,37 @@ func c05StructFields(a *ssa.Alloc, depth int) (map[string][]c05fieldStore, strin
 				}
 			}
 		}
-		base, problem := c05StructFields(src, depth+1)
+		var base map[string][]c05fieldStore
+		problem := "struct is assigned from something other than a local literal"
+		if ld, ok := whole.Val.(*ssa.UnOp); ok && ld.Op == token.MUL {
+			if src, ok := ld.X.(*ssa.Alloc); ok {
+				base, problem = c05StructFields(en, src, f, ret, depth+1, rec)
+			}
+		} else if call, idx := c05CallResult(whole.Val); call != nil {
+			// the struct is first built by a helper (its single successful return yields a local literal)
+			if ch := en.Child(f, call); ch != nil && !en.Anchors[an.FuncName(ch.Fn)] {
+				rets := en.SuccessReturns(ch.Fn, an.H05ErrNil)
+				if len(rets) == 1 && idx < len(rets[0].Results) {
+					if ld, ok := rets[0].Results[idx].(*ssa.UnOp); ok && ld.Op == token.MUL {
+						if src, ok := ld.X.(*ssa.Alloc); ok {
+							// the helper's status must be checked before the struct is used
+							if v := en.Checked(call, an.H05ErrNil, ret, en.AcceptReturn(ret, an.H05ErrNil)); v.Yes {
+								base, problem = c05StructFields(en, src, ch, rets[0], depth+1, rec)
+								if problem == "" && rec != nil {
+									b := c05builder{name: an.FuncName(ch.Fn)}
+									for _, arg := range call.Call.Args {
+										b.args = append(b.args, en.Term(arg, f))
+									}
+									*rec = append(*rec, b)
+								}
+							} else {
+								problem = "the struct comes from a helper whose error is not checked before the successful return"
+							}
+						}
+					}
+				}
+			}
+		}
 		if problem != "" {
 			return nil, problem
 		}
@@ -1119,11 +1503,26 @@ func c05StructFields(a *ssa.Alloc, depth int) (map[string][]c05fieldStore, strin
 	return out, ""
 }
 
+// c05CallResult: v is result idx of a plain call.
+func c05CallResult(v ssa.Value) (*ssa.Call, int) {
+	switch x := v.(type) {
+	case *ssa.Extract:
+		if c, ok := x.Tuple.(*ssa.Call); ok {
+			return c, x.Index
+		}
+	case *ssa.Call:
+		if x.Call.Signature().Results().Len() == 1 {
+			return x, 0
+		}
+	}
+	return nil, 0
+}
+
 // c05NewMsgProvenance: (b) provenance of every field of the Msg built by newMsg.
 func c05NewMsgProvenance(e *c05env) {
 	c := e.c
 	en := e.engine()
-	nm := c.Fn(c05Q + ".newMsg")
+	nm := c.Fn(c05N("newMsg"))
 	root := en.Root(nm)
 	pbT, justT, valsT := en.Term(nm.Params[0], root), en.Term(nm.Params[1], root), en.Term(nm.Params[2], root)
 	rets := en.SuccessReturns(nm, an.H05ErrNil)
@@ -1134,6 +1533,7 @@ func c05NewMsgProvenance(e *c05env) {
 	if !ok {
 		c.Bail("qbft.Msg is not a struct")
 	}
+	roles := c05MsgFieldRole(e)
 	for _, ret := range rets {
 		if len(ret.Results) != 2 {
 			c.Bail("newMsg: unexpected result count")
@@ -1143,9 +1543,28 @@ func c05NewMsgProvenance(e *c05env) {
 			lit, _ = ld.X.(*ssa.Alloc)
 		}
 		if lit == nil {
+			// single-exit form: `var msg Msg; if err == nil { msg = Msg{…} }; return msg, err`
+			n := 0
+			for _, o := range en.Origins(ret.Results[0], root) {
+				if o.Zero || o.Frame != root {
+					continue
+				}
+				if k, isC := o.Val.(*ssa.Const); isC && k.Value == nil {
+					continue // the zero Msg of the failing paths
+				}
+				n++
+				if ld, ok := o.Val.(*ssa.UnOp); ok && ld.Op == token.MUL {
+					lit, _ = ld.X.(*ssa.Alloc)
+				}
+			}
+			if n != 1 {
+				lit = nil
+			}
+		}
+		if lit == nil {
 			c.Bail("newMsg: a successful return does not yield a Msg built in newMsg itself")
 		}
-		stored, problem := c05StructFields(lit, 0)
+		stored, problem := c05StructFields(en, lit, root, ret, 0, &e.builders)
 		if problem != "" {
 			c.Bail("newMsg: cannot resolve the fields of the returned Msg: %s", problem)
 		}
@@ -1153,7 +1572,7 @@ func c05NewMsgProvenance(e *c05env) {
 		same := func(key string, fs []c05fieldStore, want *an.H05Term, why string) {
 			v := an.H05Verdict{Yes: true}
 			for _, s := range fs {
-				t := en.Term(s.val, root)
+				t := en.Term(s.val, s.f)
 				switch {
 				case an.H05Same(t, want):
 				case t.Untraced():
@@ -1171,6 +1590,10 @@ func c05NewMsgProvenance(e *c05env) {
 		for i := 0; i < st.NumFields(); i++ {
 			name := st.Field(i).Name()
 			fs := stored[name]
+			fieldName := name
+			if r, ok := roles[name]; ok {
+				name = r // the rule talks about the field's role; the report names it by its conventional name
+			}
 			key := "newMsg Msg." + name + " provenance"
 			if len(fs) == 0 {
 				c.Good(key, posOf(ret), "field is left at its zero value: carries nothing from the wire")
@@ -1188,7 +1611,7 @@ func c05NewMsgProvenance(e *c05env) {
 			case "preparedValueHash":
 				c05Report(c, key, posOf(ret), c05HashProv(e, root, ret, acc, fs, "PreparedValueHash", pbT, valsT), "")
 			case "justification":
-				c05Report(c, key, posOf(ret), c05JustProv(e, root, ret, acc, lit, name, fs, justT, valsT), "")
+				c05Report(c, key, posOf(ret), c05JustProv(e, root, ret, acc, lit, fieldName, fs, pbT, justT, valsT), "")
 			default:
 				c.Unsure(key, posOf(ret), "new field of qbft.Msg without a provenance rule")
 			}
@@ -1200,9 +1623,16 @@ func c05NewMsgProvenance(e *c05env) {
 // it valid and its presence in the recomputed values map was checked.
 func c05HashProv(e *c05env, root *an.H05Frame, ret *ssa.Return, acc an.H05Accept, fs []c05fieldStore, pbField string, pbT, valsT *an.H05Term) an.H05Verdict {
 	en := e.engine()
-	want := an.H05ExtractT(0, an.H05CallT(c05Q+".toHash32", an.H05Field(c05PB+".QBFTMsg."+pbField, pbT)))
+	want := an.H05ExtractT(0, an.H05CallT(c05N("toHash32"), an.H05Field(c05PB+".QBFTMsg."+pbField, pbT)))
 	nonzero := 0
+	outerRoot, outerRet, outerAcc := root, ret, acc
 	for _, s := range fs {
+		root, ret, acc := outerRoot, outerRet, outerAcc
+		if s.f != nil && s.f != root {
+			// the field is set in the helper that builds the struct: the hash is committed at that helper's
+			// successful return
+			root, ret, acc = s.f, s.ret, en.AcceptReturn(s.ret, an.H05ErrNil)
+		}
 		for _, o := range en.Origins(s.val, root) {
 			if o.Zero {
 				continue
@@ -1213,7 +1643,7 @@ func c05HashProv(e *c05env, root *an.H05Frame, ret *ssa.Return, acc an.H05Accept
 				if t.Untraced() {
 					return an.H05Verdict{Unsure: true, Why: "the hash stored cannot be traced to its origin"}
 				}
-				if t.Is("extract", "0") && len(t.Args) == 1 && t.Args[0].Is("call", c05Q+".toHash32") {
+				if t.Is("extract", "0") && len(t.Args) == 1 && t.Args[0].Is("call", c05N("toHash32")) {
 					return an.H05Verdict{Why: "hash is not derived from pbMsg." + pbField}
 				}
 				return an.H05Verdict{Why: "hash is not the result of toHash32"}
@@ -1264,7 +1694,10 @@ func c05HashProv(e *c05env, root *an.H05Frame, ret *ssa.Return, acc an.H05Accept
 				}
 				// a valid hash reaches the commit point neither with the lookup failing nor around the lookup
 				r1, imp1 := en.ReachUnder(call, site, env, sacc)
-				r2, imp2 := en.ReachUnderAvoiding(call, site, an.H05Env{okv: tru}, sacc, lk.Block())
+				r2, imp2 := false, false
+				if !(lk.Block() == call.Block() && an.Dominates(call, lk)) { // else: nothing between the two
+					r2, imp2 = en.ReachUnderAvoiding(call, site, an.H05Env{okv: tru}, sacc, lk.Block())
+				}
 				if !r1 && !r2 {
 					present = true
 				} else if imp1 || imp2 {
@@ -1287,14 +1720,63 @@ func c05HashProv(e *c05env, root *an.H05Frame, ret *ssa.Return, acc an.H05Accept
 
 // c05JustProv: Msg.justification is the list of newMsg(j, …, values) results for every element j of the
 // justification parameter, each with its error checked.
-func c05JustProv(e *c05env, root *an.H05Frame, ret *ssa.Return, acc an.H05Accept, lit *ssa.Alloc, field string, fs []c05fieldStore, justT, valsT *an.H05Term) an.H05Verdict {
+func c05JustProv(e *c05env, root *an.H05Frame, ret *ssa.Return, acc an.H05Accept, lit *ssa.Alloc, field string, fs []c05fieldStore, pbT, justT, valsT *an.H05Term) an.H05Verdict {
 	en := e.engine()
-	nmName := c05Q + ".newMsg"
+	nmName := c05N("newMsg")
+	// a justification is converted by newMsg itself or by the very helper that builds the main message
+	// (whose hash presence checks are decided with it), applied to the element and the same values map
+	convQ := func(elem *an.H05Term) an.H05Query {
+		qs := []an.H05Query{c05CallQ(nmName, an.H05ErrNil, "no newMsg(j, nil, values) in the loop", elem, nil, valsT)}
+		for _, b := range e.builders {
+			args := make([]*an.H05Term, len(b.args))
+			for i, a := range b.args {
+				args[i] = c05Subst(a, pbT, elem)
+			}
+			qs = append(qs, c05CallQ(b.name, an.H05ErrNil, "no conversion of the justification in the loop", args...))
+		}
+		if len(qs) == 1 {
+			return qs[0]
+		}
+		return &c05anyQ{qs}
+	}
+	// isConv: the term is the result of such a conversion of the element
+	isConv := func(v ssa.Value, f *an.H05Frame) (ok bool, why string) {
+		g, idx := c05CallResult(en.Resolve(v))
+		if g == nil || idx != 0 || g.Call.IsInvoke() || g.Call.StaticCallee() == nil {
+			return false, "an appended justification is not built by newMsg"
+		}
+		call := an.H05CallT(an.FuncName(g.Call.StaticCallee()))
+		for _, a := range g.Call.Args {
+			call.Args = append(call.Args, en.Term(a, f))
+		}
+		elem := an.H05Elem(justT)
+		if call.Name == nmName && len(call.Args) == 3 {
+			if !an.H05Same(call.Args[0], elem) {
+				return false, "justification Msg is not built from the element of the justification parameter"
+			}
+			if !an.H05Same(call.Args[2], valsT) {
+				return false, "justification Msg is built with a different values map"
+			}
+			return true, ""
+		}
+		for _, b := range e.builders {
+			if call.Name != b.name || len(call.Args) != len(b.args) {
+				continue
+			}
+			all := true
+			for i, a := range b.args {
+				all = all && an.H05Same(call.Args[i], c05Subst(a, pbT, elem))
+			}
+			if all {
+				return true, ""
+			}
+			return false, "justification Msg is not built from the element of the justification parameter and the same values map"
+		}
+		return false, "an appended justification is not built by newMsg"
+	}
 	// every justification converted with its error checked, before the successful return
 	fa := &an.H05ForallQ{Name: "newMsg", Coll: justT, Missing: "no newMsg call on the elements of a loop over the justification parameter",
-		Inner: func(elem *an.H05Term) an.H05Query {
-			return c05CallQ(nmName, an.H05ErrNil, "no newMsg(j, nil, values) in the loop", elem, nil, valsT)
-		}}
+		Inner: convQ}
 	fv := en.Established(fa, ret, root, acc, false)
 	if !fv.Yes {
 		if !fv.Unsure {
@@ -1397,35 +1879,31 @@ func c05JustProv(e *c05env, root *an.H05Frame, ret *ssa.Return, acc an.H05Accept
 			return an.H05Verdict{Unsure: true, Why: "unrecognised append"}
 		}
 		t := en.Term(elems[0], a.f)
-		if !(t.Is("extract", "0") && len(t.Args) == 1 && t.Args[0].Is("call", nmName) && len(t.Args[0].Args) == 3) {
+		if ok, why := isConv(elems[0], a.f); !ok {
 			if t.Untraced() {
 				return an.H05Verdict{Unsure: true, Why: "an appended justification cannot be traced to its origin"}
 			}
-			return an.H05Verdict{Why: "an appended justification is not built by newMsg"}
-		}
-		if !an.H05Same(t.Args[0].Args[0], an.H05Elem(justT)) {
-			return an.H05Verdict{Why: "justification Msg is not built from the element of the justification parameter"}
-		}
-		if !an.H05Same(t.Args[0].Args[2], valsT) {
-			return an.H05Verdict{Why: "justification Msg is built with a different values map"}
+			return an.H05Verdict{Why: why}
 		}
 		// once per iteration, after the error check
 		var loop *an.Loop
+		var rng *an.H05Range
 		for _, l := range an.LoopsContaining(a.call.Parent(), a.call.Block()) {
 			if r := en.RangeOf(l); r != nil && an.H05Same(en.Term(r.Coll, a.f), justT) {
-				loop = l
+				loop, rng = l, r
 				break
 			}
 		}
 		if loop == nil {
 			return an.H05Verdict{Why: "the append is not inside the loop over the justification parameter"}
 		}
-		for _, la := range loop.Latches {
-			if !a.call.Block().Dominates(la) {
-				return an.H05Verdict{Why: "a justification can be skipped: the append is not executed in every iteration"}
-			}
+		// every iteration that goes on to the next element passes the append (an iteration that fails and
+		// ends the loop — by returning or through the loop condition — need not)
+		end, endAcc := en.IterationEnd(loop, rng.Test)
+		if !en.Dom(a.call, end, endAcc) {
+			return an.H05Verdict{Why: "a justification can be skipped: the append is not executed in every iteration"}
 		}
-		q := c05CallQ(nmName, an.H05ErrNil, "no newMsg call before the append", an.H05Elem(justT), nil, valsT)
+		q := convQ(an.H05Elem(justT))
 		if v := en.Established(q, a.call, a.f, nil, false); !v.Yes {
 			if !v.Unsure {
 				v.Why = "error of the nested newMsg is not checked before the append: " + v.Why
@@ -1444,7 +1922,7 @@ func c05InLoop(in ssa.Instruction) bool {
 func c05ValuesByHash(e *c05env) {
 	c := e.c
 	en := e.engine()
-	vbh := c.Fn(c05Q + ".valuesByHash")
+	vbh := c.Fn(c05N("valuesByHash"))
 	root := en.Root(vbh)
 	valsP := en.Term(vbh.Params[0], root)
 	rets := en.SuccessReturns(vbh, an.H05ErrNil)
@@ -1453,7 +1931,7 @@ func c05ValuesByHash(e *c05env) {
 	}
 	var resMap *an.H05Term
 	for _, r := range rets {
-		t := en.Term(r.Results[0], root)
+		t := en.TermAtAcc(r.Results[0], root, r, root, en.AcceptReturn(r, an.H05ErrNil))
 		if resMap != nil && !an.H05Same(resMap, t) {
 			c.Bail("valuesByHash: successful returns yield different maps")
 		}
@@ -1477,7 +1955,7 @@ func c05ValuesByHash(e *c05env) {
 		v := an.H05Verdict{Why: "map key is not the hashProto result"}
 		kt := en.Term(up.Key, u.f)
 		switch {
-		case kt.Is("extract", "0") && len(kt.Args) == 1 && kt.Args[0].Is("call", c05Q+".hashProto") && len(kt.Args[0].Args) == 1:
+		case kt.Is("extract", "0") && len(kt.Args) == 1 && kt.Args[0].Is("call", c05N("hashProto")) && len(kt.Args[0].Args) == 1:
 			v.Why = "hashed message is not UnmarshalNew() of the value stored under the key"
 			inner := kt.Args[0].Args[0]
 			if inner.Is("extract", "0") && len(inner.Args) == 1 && inner.Args[0].Is("call") && strings.HasSuffix(inner.Args[0].Name, ".UnmarshalNew") && len(inner.Args[0].Args) == 1 {
@@ -1494,7 +1972,7 @@ func c05ValuesByHash(e *c05env) {
 							cal := g.Call.StaticCallee()
 							return cal != nil && cal.Name() == "UnmarshalNew"
 						}}
-					qH := c05CallQ(c05Q+".hashProto", an.H05ErrNil, "hashProto does not precede the insertion", inner)
+					qH := c05CallQ(c05N("hashProto"), an.H05ErrNil, "hashProto does not precede the insertion", inner)
 					v1 := en.Established(qU, up, u.f, nil, true)
 					v2 := en.Established(qH, up, u.f, nil, true)
 					switch {
@@ -1619,10 +2097,117 @@ func (q *c05lookupQ) Direct(en *an.H05, site ssa.Instruction, f *an.H05Frame, ac
 	return best
 }
 
+// c05HiddenConsumer names code the engine cannot look into that receives (part of) the value obj in the
+// activations reachable from root: a dynamically chosen function (an element of a table of checks, a
+// function-typed field or parameter), a function literal that is not called directly. Checks may live
+// there, so their absence elsewhere is not evidence. Empty if there is none.
+func c05HiddenConsumer(en *an.H05, root *an.H05Frame, obj *an.H05Term) string {
+	hidden := ""
+	visited := map[*ssa.Function]bool{}
+	en.Walk(root, func(in ssa.Instruction, f *an.H05Frame) {
+		visited[f.Fn] = true
+		ci, ok := in.(ssa.CallInstruction)
+		if !ok {
+			return
+		}
+		cc := ci.Common()
+		if _, isB := cc.Value.(*ssa.Builtin); isB || cc.IsInvoke() {
+			return
+		}
+		if callee := cc.StaticCallee(); callee != nil {
+			if en.Child(f, ci) == nil && callee.Pkg == root.Fn.Pkg && !en.Anchors[an.FuncName(callee)] {
+				for _, a := range cc.Args {
+					if en.Term(a, f).Contains(obj) {
+						hidden = an.FuncName(callee)
+					}
+				}
+			}
+			return
+		}
+		for _, a := range cc.Args {
+			if en.Term(a, f).Contains(obj) {
+				hidden = "a dynamically chosen function"
+			}
+		}
+	})
+	return hidden
+}
+
+// c05sigQ: a PublicKey.IsEqual call comparing the key recovered (k1util.Recover) from the message's own
+// Signature over hashProto of the proto.Clone of the message with the expected key returned true.
+type c05sigQ struct{ msg, key *an.H05Term }
+
+func (q *c05sigQ) ID() string { return "c05sig:" + q.msg.Key() + "|" + q.key.Key() }
+
+// c05RecoveredFrom: t is the key k1util.Recover yields for msg's signature over the hash of msg's clone.
+// (yes, untraced)
+func c05RecoveredFrom(t, msg *an.H05Term) (bool, bool) {
+	if !(t.Is("extract", "0") && len(t.Args) == 1 && t.Args[0].Is("call", "app/k1util.Recover") && len(t.Args[0].Args) == 2) {
+		return false, t.Untraced()
+	}
+	dig, sig := t.Args[0].Args[0], t.Args[0].Args[1]
+	if !an.H05Same(sig, an.H05Field(c05PB+".QBFTMsg.Signature", msg)) {
+		return false, sig.Untraced()
+	}
+	for _, clone := range []*an.H05Term{
+		an.H05T("assert", "*"+c05PB+".QBFTMsg", an.H05CallT(c05Clone, msg)),
+		an.H05CallT(c05Clone+"Of", msg),
+	} {
+		if c05DigestOf(dig, clone) {
+			return true, false
+		}
+	}
+	return false, dig.Untraced()
+}
+
+func (q *c05sigQ) Direct(en *an.H05, site ssa.Instruction, f *an.H05Frame, acc an.H05Accept) an.H05Verdict {
+	best := an.H05Verdict{Why: "the key recovered from the message's signature is never compared (IsEqual) with pubkeys[msg.PeerIdx]"}
+	for _, b := range f.Fn.Blocks {
+		for _, in := range b.Instrs {
+			g, ok := in.(*ssa.Call)
+			if !ok || g.Call.IsInvoke() || g.Call.StaticCallee() == nil || !strings.HasSuffix(an.FuncName(g.Call.StaticCallee()), ".PublicKey.IsEqual") || len(g.Call.Args) != 2 {
+				continue
+			}
+			a0, a1 := en.Term(g.Call.Args[0], f), en.Term(g.Call.Args[1], f)
+			var rec *an.H05Term
+			switch {
+			case an.H05Same(a1, q.key):
+				rec = a0
+			case an.H05Same(a0, q.key):
+				rec = a1
+			default:
+				if a0.Untraced() || a1.Untraced() {
+					best = c05Better(best, an.H05Verdict{Unsure: true, Cand: true, Why: "IsEqual is applied to a value the checker cannot trace"})
+				} else if r0, _ := c05RecoveredFrom(a0, q.msg); r0 {
+					best = c05Better(best, an.H05Verdict{Cand: true, Why: "verifyMsgSig is not applied to the message and the key of its own source index: the recovered key is compared with something other than pubkeys[msg.PeerIdx]"})
+				} else if r1, _ := c05RecoveredFrom(a1, q.msg); r1 {
+					best = c05Better(best, an.H05Verdict{Cand: true, Why: "verifyMsgSig is not applied to the message and the key of its own source index: the recovered key is compared with something other than pubkeys[msg.PeerIdx]"})
+				}
+				continue
+			}
+			if yes, untraced := c05RecoveredFrom(rec, q.msg); !yes {
+				if untraced {
+					best = c05Better(best, an.H05Verdict{Unsure: true, Cand: true, Why: "the key compared with pubkeys[msg.PeerIdx] cannot be traced to k1util.Recover"})
+				} else {
+					best = c05Better(best, an.H05Verdict{Cand: true, Why: "the key compared with pubkeys[msg.PeerIdx] is not the one recovered from the message's own signature over the hash of its clone"})
+				}
+				continue
+			}
+			v := en.Checked(g, an.H05Spec{BoolIdx: 0, BoolWant: true}, site, acc)
+			if v.Yes {
+				v.WitFrame = f
+				return v
+			}
+			best = c05Better(best, v)
+		}
+	}
+	return best
+}
+
 func c05A4(e *c05env) {
 	c := e.c
 	en := e.engine()
-	fn := c.Fn(c05Q + ".verifyMsg")
+	fn := c.Fn(c05N("verifyMsg"))
 	root := en.Root(fn)
 	msgT, keysT := en.Term(fn.Params[0], root), en.Term(fn.Params[1], root)
 	sinks := en.SuccessReturns(fn, an.H05ErrNil)
@@ -1640,9 +2225,17 @@ func c05A4(e *c05env) {
 			haveLookup, lookupPos = true, lk.Pos()
 		}
 	})
+	hidden := c05HiddenConsumer(en, root, msgT)
 	for _, sink := range sinks {
 		acc := en.AcceptReturn(sink, an.H05ErrNil)
-		est := func(q an.H05Query) an.H05Verdict { return en.Established(q, sink, root, acc, false) }
+		est := func(q an.H05Query) an.H05Verdict {
+			v := en.Established(q, sink, root, acc, false)
+			if !v.Yes && !v.Unsure && !v.Cand && hidden != "" {
+				v.Unsure = true
+				v.Why += "; the message is handed to " + hidden + ", which the checker cannot look into"
+			}
+			return v
+		}
 		pos := posOf(sink)
 		boolTrue := an.H05Spec{BoolIdx: 0, BoolWant: true}
 		c05Report(c, "verifyMsg type valid→accept", pos,
@@ -1659,17 +2252,23 @@ func c05A4(e *c05env) {
 		}
 		c.Good("verifyMsg key = pubkeys[msg.PeerIdx]", lookupPos, "")
 		c05Report(c, "verifyMsg unknown peer→reject", lookupPos, est(&c05lookupQ{keysT, idxT}), "")
-		sv := est(c05CallQ(c05Q+".verifyMsgSig", an.H05Bool(0, true), "no verifyMsgSig(msg, pubkeys[msg.PeerIdx]) call", msgT, keyT))
-		if !sv.Yes && !sv.Unsure && !sv.Cand && strings.Contains(sv.Why, "something else") {
-			sv.Why = "verifyMsgSig is not applied to the message and the key of its own source index"
-		}
+		// the signature mechanism itself, wherever its steps live (verifyMsgSig, a differently cut helper,
+		// inline): the key recovered from the message's signature over the hash of its clone was found equal
+		// to the key of the message's own source index
+		sv := est(&c05sigQ{msg: msgT, key: keyT})
 		c05Report(c, "verifyMsg verifyMsgSig(msg, key)→accept", pos, sv, "")
 	}
 
 	// Msg.Source() is that same signed field
 	src := c.Fn(c05Q + ".Msg.Source")
 	sroot := en.Root(src)
-	want := an.H05Field(c05PB+".QBFTMsg.PeerIdx", an.H05Field(c05Q+".Msg.msg", en.Term(src.Params[0], sroot)))
+	msgField := "msg"
+	for f, r := range c05MsgFieldRole(e) {
+		if r == "msg" {
+			msgField = f
+		}
+	}
+	want := an.H05Field(c05PB+".QBFTMsg.PeerIdx", an.H05Field(c05Q+".Msg."+msgField, en.Term(src.Params[0], sroot)))
 	for _, r := range an.Returns(src) {
 		good, unsure := false, false
 		if len(r.Results) == 1 {
@@ -1686,10 +2285,11 @@ func c05A4(e *c05env) {
 	// the key table maps index i to the key of peers[i]
 	nc := c.Fn(c05Q + ".NewConsensus")
 	nroot := en.Root(nc)
+	fPubkeys, _, _, _ := c05ConsFields(c)
 	var keysMap *an.H05Term
 	en.Walk(nroot, func(in ssa.Instruction, f *an.H05Frame) {
 		if st, ok := in.(*ssa.Store); ok {
-			if fa, ok := st.Addr.(*ssa.FieldAddr); ok && an.FieldKey(fa.X.Type(), fa.Field) == c05Q+".Consensus.pubkeys" {
+			if fa, ok := st.Addr.(*ssa.FieldAddr); ok && an.FieldKey(fa.X.Type(), fa.Field) == c05Q+".Consensus."+fPubkeys {
 				keysMap = en.Term(st.Val, f)
 			}
 		}
